@@ -181,6 +181,38 @@ def rule_tables(ctx):
         ctx.check(R, "DegreeRange::iter_opt/non-empty", "is_empty()" in t, t[:200], site(DM, io))
         t2 = render(ii["body"])
         ctx.check(R, "DegreeRange::iter_inf/folds-with-inf", ".inf(" in t2, t2[:200], site(DM, ii))
+        # evaluated: iter_inf of 1, 2 and 3 ranges is the left fold of `inf` (decided above) over them; iter_opt is None as
+        # soon as one range is unknown or the list is empty, otherwise Some(iter_inf)
+        try:
+            fi = w.methods[("DegreeRange", "iter_inf")][0]
+            fo = w.methods[("DegreeRange", "iter_opt")][0]
+            sample = [rng(*r) for r in RANGES]
+            wrong = []
+            n_ev = 0
+            for n_ in (1, 2, 3):
+                for combo in itertools.product(sample, repeat=n_):
+                    want = combo[0]
+                    for x in combo[1:]:
+                        want = w.call_method(want, "inf", [x])
+                    got = w.call_fn(fi, [("L", tuple(combo))])
+                    n_ev += 1
+                    if got != want and len(wrong) < 5:
+                        wrong.append("iter_inf(%s) = %s, fold of inf = %s" % (combo, got, want))
+            ctx.check(R, "DegreeRange::iter_inf/is-the-fold-of-inf", not wrong, "%d lists evaluated; %s" % (n_ev, wrong), site(DM, ii))
+            wrong = []
+            for n_ in (0, 1, 2, 3):
+                for combo in itertools.product(sample[:4] + [None], repeat=n_):
+                    arg = ("L", tuple(NONE if x is None else S("Some", x) for x in combo))
+                    got = w.call_fn(fo, [arg])
+                    if n_ == 0 or any(x is None for x in combo):
+                        want = NONE
+                    else:
+                        want = S("Some", w.call_fn(fi, [("L", tuple(combo))]))
+                    if got != want and len(wrong) < 5:
+                        wrong.append("iter_opt(%s) = %s, expected %s" % (combo, got, want))
+            ctx.check(R, "DegreeRange::iter_opt/none-unless-all-known", not wrong, str(wrong), site(DM, io))
+        except (Unsupported, KeyError) as u:
+            ctx.missing(R, "DegreeRange::iter_inf/iter_opt", "cannot evaluate: %s" % u)
 
 
 def seed_value(fn, call):
